@@ -1,3 +1,4 @@
--- This module serves as the root of the `XixiKV` library.
--- Import modules here that should be built as part of the library.
-import XixiKV.Basic
+import XixiKV.Model.Frame
+import XixiKV.Model.Chunk
+import XixiKV.Proofs.Bytes
+import XixiKV.Proofs.Chunk
